@@ -20,7 +20,7 @@ RULE = ("cases = a generated multi-statement script (one column per line where p
         "(style x text x line position) over two base scripts, then seeded random multi-insertion scripts. Indented multi-line block "
         "comments and comments containing another comment marker are generated as separate, single-comment cases (known findings). "
         "Non-trivial = at least one comment inserted; distinct = distinct commented script."
-        " Added after seeded defects: interior and closing lines of block comments that start like ignored lines or comments, '--' inside '--' comments, '#text' / '##text', end-of-input tails (no final ';', no final newline), the comments entry on a second run of the same object.")
+        " Added after seeded defects: interior and closing lines of block comments that start like ignored lines or comments, '--' inside '--' comments, '#text' / '##text', end-of-input tails (no final ';', no final newline), the comments entry on a second run of the same object, comment text glued to the dashes or the opener, comments glued to the code.")
 ASSUMPTIONS = ["comment texts contain no quotes and (outside the known-finding class) none of the sequences --, /*, */",
                "no code follows a comment on the same line", "containment of a reported comment item is tested after removing white space (the pre-processor re-spaces , ( ) = inside comment text too)"]
 MIN_EVENTS = {"statements": 100, "run_return": 100}
@@ -54,7 +54,7 @@ def make_comment(rng, style, mk, text=None, indent=""):
     t = text if text is not None else rng.choice(TEXTS + (DASH_TEXTS if style == "dash" else []))
     m = mk.next()
     if style == "dash":
-        l = [indent + "-- " + m + " " + t]
+        l = [indent + rng.choice(["-- ", "-- ", "--", "--\t", "---"]) + m + " " + t]       # text glued to the dashes, a tab, a third dash
     elif style == "hash":
         # text glued to the '#', a doubled '#', or the usual blank after it
         l = [indent + rng.choice(["# ", "# ", "#", "##", "#!"]) + m + " " + t]
@@ -84,7 +84,10 @@ def make_comment(rng, style, mk, text=None, indent=""):
 def trailing(rng, style, mk, text=None):
     t = text if text is not None else rng.choice(TEXTS + (DASH_TEXTS if style == "tdash" else []))
     m = mk.next()
-    return (" -- " + m + " " + t) if style == "tdash" else (" /* " + m + " " + t + " */")
+    if style == "tdash":
+        # ... the usual ' -- text', the text glued to the dashes, the dashes glued to the code
+        return rng.choice([" -- ", " -- ", " --", "--", " --\t", "-- "]) + m + " " + t
+    return rng.choice([" /* ", " /* ", " /*", "/*", "/* "]) + m + " " + t + rng.choice([" */", " */", "*/"])
 
 
 def squash(s):
